@@ -733,6 +733,9 @@ func (v *Verifier) verifyFunc(fullKey string, fc *FuncContract) (rep *FuncReport
 	e.bindParams(s)
 	e.entry = s
 	e.initGhosts(s)
+	for _, p := range fn.Params {
+		e.assumeValInv(s, e.regs[p], p.Type())
+	}
 	st := s.clone()
 	for _, r := range fc.Requires {
 		st.assume(e.asHyp(func() *Node { return e.evalClause(r, st, s, nil) }))
@@ -860,7 +863,7 @@ func (e *Exec) frameObligations(ret, entry *State, fc *FuncContract) {
 		h1 := ret.heaps[k]
 		h0, ok := e.oldState().heaps[k]
 		if !ok {
-			h0 = TS.Const("heap0:"+sanitize(k), h1.Sort)
+			h0 = TS.Const(e.heap0Name(k), h1.Sort)
 		}
 		if h0 == h1 {
 			continue
